@@ -54,8 +54,8 @@ class Interpreter:
         :param code: Michelson code
         """
         result = InterpreterResult(stdout=[])
-        stack_backup = deepcopy(self.stack)
-        context_backup = deepcopy(self.context)
+        # NOTE: copied together so that big_maps in the stack backup stay attached to the context backup
+        context_backup, stack_backup = deepcopy((self.context, self.stack))
 
         try:
             code_section = CodeSection.match(michelson_to_micheline(code))
